@@ -27,6 +27,8 @@ func checkC14(c *Ctx) {
 	c.Rule("C14-R9", "a NAME-256color / NAME-truecolor request for a known base is built on the base the fallback lookup found: the result of every recursive lookup flows into the value that is tested before giving up with ErrTermNotFound")
 	c.Expect("C14-R9", 2)
 	c.Rule("C14-R10", "TCELL_TRUECOLOR=disable has the last word in LookupTerminfo: the flag the RGB amendment tests receives false straight from the 'disable' case (no later assignment can set it again)")
+	c.Rule("C14-R12", "in every description the set and the reset string of a mode differ, and DEC private mode pairs end in h (set) and l (reset) the right way round")
+	c.Expect("C14-R12", 1)
 	c.Rule("C14-R11", "LookupTerminfo leaves the registry as it is: lookups are independent of the lookups made before them")
 	c.Expect("C14-R11", 1)
 	c.Expect("C14-R10", 1)
@@ -56,6 +58,9 @@ func checkC14(c *Ctx) {
 		}
 		c.curCfg = cfg
 		db := buildDB(c, p)
+		if cfg == "linux" {
+			checkModePairsDiffer(c, p, "C14-R12", db)
+		}
 		c14Literals(c, p, db)
 		if cfg != "linux" {
 			continue
